@@ -18,6 +18,7 @@ from typing import Any
 warnings.simplefilter('ignore')
 
 from bubus import BaseEvent, EventBus  # noqa: E402
+from pydantic import Field  # noqa: E402
 import bubus.helpers as H  # noqa: E402
 import bubus.service as S  # noqa: E402
 
@@ -48,7 +49,25 @@ class E5(BaseEvent):
     tag: int = 0
 
 
-TYPES = [E0, E1, E2, E3, E4, E5]
+class P6(BaseEvent):
+    """An event class that pins its own event_type (the wire name differs from the class name)."""
+    event_type: str = Field(default='PinnedWire6', frozen=True)
+    tag: int = 0
+
+
+TYPES = [E0, E1, E2, E3, E4, E5, P6]
+
+
+def type_key(t: int) -> str:
+    """The event_type its instances carry."""
+    return 'PinnedWire6' if t == 6 else f'E{t}'
+
+
+def pattern_key(pat) -> str:
+    """The registry key a subscription pattern is filed under (a class pattern is shorthand for its __name__)."""
+    if pat == '*':
+        return '*'
+    return TYPES[pat].__name__ if isinstance(pat, int) else pat
 
 
 class CustomError(Exception):
